@@ -230,6 +230,10 @@ def main(args: Any) -> int:
         from vf import c20_deferral
 
         c20_deferral.run(rep, args.tier)
+    if not getattr(args, "only", None) or "K3" in args.only:
+        from vf import c20_daemon_loop
+
+        c20_daemon_loop.run(rep, args.tier)
     return rep.finish()
 
 
